@@ -86,9 +86,11 @@ def scenarios(tier):
     for fk, first in firsts.items():
         for wk, fol in followers.items():
             for la in (0, 1, 2, 5):
-                for where in ("same", "later"):
+                for where in ("same", "later", "inq", "split"):
                     for workers in (1, 2):
-                        if q and not ((la in (0, 1) and workers == 1) or (la == 2 and workers == 2 and wk == "two" and where == "later")):
+                        if where in ("inq", "split") and (wk not in ("complete", "two") or la == 0 or (q and (workers == 2 or la == 5))):
+                            continue
+                        if q and where in ("same", "later") and not ((la in (0, 1) and workers == 1) or (la == 2 and workers == 2 and wk == "two" and where == "later")):
                             continue
                         if q and wk in ("partial", "garbage") and (fk not in ("conn-close", "malformed") or la == 0):
                             continue
@@ -101,11 +103,28 @@ def scenarios(tier):
                             p["short"] = True
                         if where == "same":
                             p["pre"] = (first + fol).decode("latin-1")
-                        else:
+                        elif where == "later":
                             p["pre"] = first.decode("latin-1")
                             p["segments"] = [(fol.decode("latin-1"), None)]
+                        elif where == "inq":
+                            # the follower is already in the socket when the threads start and the
+                            # application does not block: the I/O thread's first read races the worker
+                            p["pre"] = first.decode("latin-1")
+                            p["inq"] = fol.decode("latin-1")
+                            p["release"] = []
+                            for pr in p["programs"].values():
+                                pr.pop("block", None)
+                        else:
+                            # the read that carries the closing request also carries the first part of the
+                            # next one; the rest arrives after the close decision
+                            cut = len(fol) // 2
+                            p["pre"] = (first + fol[:cut]).decode("latin-1")
+                            p["segments"] = [("@release:go", None), (fol[cut:].decode("latin-1"), None)]
+                            p["release"] = []
                         p["allowed"] = ["1"] if fk != "malformed" else []
                         bound = 1 if q else 2
+                        if where == "split" or (where == "inq" and la == 1 and wk == "complete"):
+                            bound = 2  # these races need the worker to be resumed at once after the I/O thread queued the task
                         S.append((f"{fk}+{wk}[{where},la={la},w={workers}]", p, bound))
     # client EOF while a request runs and another is buffered behind it
     for la in (1, 2):
